@@ -1,14 +1,15 @@
-\* C22 leg A quick: one series rf 1..4, two series rf 2 on 3 nodes, outcomes ok/conflict/unavailable/other,
+\* C22 leg A quick: one series rf 1..3 (rf 4 in the thorough tier), two series rf 2 on 3 nodes, all six outcomes, local replica,
 \* fresh and already-replicated requests, every fault assignment x every accounting order, timeout at any moment.
 \* cases: one series rf 1..4 (all multisets x all arrangements), replicated rf 1..3
 SPECIFICATION Spec
-CONSTANTS RF1 = {1, 2, 3, 4}
+CONSTANTS RF1 = {1, 2, 3}
           RF2 = {2}
           N2 = 3
-          Outcomes = {"ok", "conflict", "unavailable", "other", "noconn"}
+          Outcomes = {"ok", "conflict", "unavailable", "other", "noconn", "notready"}
           ReplThresholdIsQuorum = FALSE
           WithTimeout = TRUE
           CaseRF1 = {1, 2, 3, 4}
+          CaseRFLocal = {1, 2, 3}
           CaseRF2 = {}
           CaseOutcomes = {"ok", "conflict", "unavailable", "other", "noconn"}
 INVARIANTS C22Inv C23Inv OrderIndependent EarlyOnlyWhenDetermined
